@@ -1,6 +1,7 @@
 import GeffModel.Proto
 import GeffModel.TrackMate
 import GeffModel.TrackMateSpec
+import GeffModel.TrackMateXmlJson
 open Lean Geff Geff.Proto Geff.TrackMate
 
 def optStrJ : Option String → Json
@@ -106,6 +107,8 @@ def outJson (o : Out) : Json :=
 
 /-- request: the abstract document (see harness/corr/C16.py `model_request`) + "ds", "dt" -/
 def handle (j : Json) : Except String Json := do
+  -- requests of the XML layer (`"op": "xml"`): GeffModel/TrackMateXmlJson.lean
+  if (j.getObjValD "op") == Json.str "xml" then return ← Geff.TrackMate.Xml.J.handle j
   let d ← getDoc j
   let ds ← (← j.getObjVal? "ds").getBool?
   let dt ← (← j.getObjVal? "dt").getBool?
